@@ -167,6 +167,14 @@ class CompareFamily(Family):
             [P(lay_.PLAIN, lay_.TSINT, 4), P(lay_.FIXED, lay_.TUINT, 2), P(lay_.PLAIN, lay_.TU8, 1)],
             [P(lay_.PLAIN, lay_.TBLOB, 1), P(lay_.VARYING, lay_.TU8, 1), P(lay_.PLAIN, lay_.TBYTE, 1)],  # count outside the run
             [P(lay_.FIXED, lay_.TTRK, 4), P(lay_.PLAIN, lay_.TU8, 1)],
+            # memcmp-able lists with a VaryingSize field: no padding inside an element, gaps between elements
+            [P(lay_.PLAIN, lay_.TUINT, 8, 8), P(lay_.VARYING, lay_.TUINT, 4)],
+            [P(lay_.PLAIN, lay_.TUINT, 2, 2), P(lay_.VARYING, lay_.TU8, 1)],
+            [P(lay_.PLAIN, lay_.TU8, 1, 4), P(lay_.VARYING, lay_.TBYTE, 1)],
+            [P(lay_.PLAIN, lay_.TUINT, 4, 4), P(lay_.VARYING, lay_.TSINT, 2), P(lay_.PLAIN, lay_.TU8, 1)],
+            # all-byte fixed lists with AlignAs: stride padding only
+            [P(lay_.FIXED, lay_.TU8, 1, 4)],
+            [P(lay_.PLAIN, lay_.TBYTE, 1, 2), P(lay_.FIXED, lay_.TU8, 1)],
             [P(lay_.PLAIN, lay_.TU8, 1), P(lay_.PLAIN, lay_.TBLOB, 2), P(lay_.PLAIN, lay_.TU8, 1), P(lay_.PLAIN, lay_.TU8, 1)],
         ]
 
@@ -187,6 +195,50 @@ class CompareFamily(Family):
                 self.add_stats(st)
                 scripts.append((gen.script_id(lines), lines, None))
             jobs.append(Job(L, K, scripts, tag="compare"))
+        return jobs
+
+
+class ProxyFamily(Family):
+    """references, iterators and permuting algorithms (C11)"""
+
+    def __init__(self, nlists=22, nscripts=14):
+        super().__init__()
+        self.nlists, self.nscripts = nlists, nscripts
+
+    def extra_lists(self):
+        P, l = gen.P, lay
+        return [
+            # every shape of the run tables over up to four fields (t = trivial, n = instrumented)
+            [P(l.PLAIN, l.TUINT, 4), P(l.PLAIN, l.TTRK, 4)],
+            [P(l.PLAIN, l.TTRK, 4), P(l.PLAIN, l.TUINT, 4)],
+            [P(l.PLAIN, l.TUINT, 2), P(l.PLAIN, l.TTRK, 3), P(l.PLAIN, l.TBLOB, 5, 4)],
+            [P(l.PLAIN, l.TTRK, 3), P(l.PLAIN, l.TU8, 1), P(l.PLAIN, l.TUINT, 4, 4), P(l.PLAIN, l.TTRK, 8, 8)],
+            [P(l.PLAIN, l.TU8, 1), P(l.PLAIN, l.TUINT, 4, 4), P(l.PLAIN, l.TTRK, 2), P(l.PLAIN, l.TBLOB, 3)],
+            [P(l.FIXED, l.TBLOB, 3), P(l.FIXED, l.TTRK, 4), P(l.PLAIN, l.TUINT, 8, 8)],
+            [P(l.PLAIN, l.TUINT, 4), P(l.FIXED, l.TBLOB, 4), P(l.FIXED, l.TTRK, 8)],          # the suite's partially trivial swap
+            [P(l.PLAIN, l.TTRKC, 4, 4), P(l.PLAIN, l.TBYTE, 1), P(l.FIXED, l.TUINT, 2, 2)],    # assignable but not swappable
+            [P(l.PLAIN, l.TUINT, 8, 8), P(l.VARYING, l.TBLOB, 3), P(l.PLAIN, l.TTRK, 4, 4)],
+            [P(l.PLAIN, l.TU8, 1), P(l.VARYING, l.TUINT, 4, 4), P(l.PLAIN, l.TU8, 1), P(l.VARYING, l.TBLOB, 5, 2)],
+            [P(l.FIXED, l.TTRK, 8), P(l.PLAIN, l.TTRK, 8)],
+        ]
+
+    def jobs(self, rng, tier):
+        mult = 1 if tier == "quick" else 5
+        jobs = []
+        Ls = [x for x in self.extra_lists() if lay.wf(x)]
+        seen = {gen.list_key(x) for x in Ls}
+        for x in self.lists(rng, tier, self.nlists):
+            if gen.list_key(x) not in seen:
+                seen.add(gen.list_key(x))
+                Ls.append(x)
+        for li, L in enumerate(Ls):
+            K = [K_DEFAULT, K_PMR][li % 2]
+            scripts = []
+            for _ in range(self.nscripts * mult):
+                lines, st = gen.gen_proxy(L, K, rng)
+                self.add_stats(st)
+                scripts.append((gen.script_id(lines), lines, None))
+            jobs.append(Job(L, K, scripts, tag="proxy"))
         return jobs
 
 
@@ -301,3 +353,4 @@ FAMILIES["C06"] = Multi(HistFamily(nlists=16, nhist=8, allow_overlap=True), Spec
 FAMILIES["C02"] = HistFamily(strict_block=False, nhist=6, nfill=16)
 FAMILIES["C13"] = CompareFamily()
 FAMILIES["C14"] = CompareFamily()
+FAMILIES["C11"] = ProxyFamily()
